@@ -64,9 +64,19 @@ func genRsm(r *Rng, tier string) *Enc {
 	if wrong && n > 0 {
 		ts[r.Intn(n)] = Pick(r, []any{nil, 5, "2020-01-01"})
 	}
+	if r.Chance(3) {
+		// a whole column of RFC 3339 TEXT: not time.Time cells, so an error — and the column stays text
+		for i := range ts {
+			ts[i] = Pick(r, []string{"2024-02-29T12:30:00Z", "2024-03-01T00:00:00Z", "2023-12-31T23:59:59+02:00"})
+		}
+	}
 	df := dataframe.NewDataFrame()
 	df.Columns["t"] = &dataframe.Column[any]{Name: "t", Data: ts}
-	for _, name := range []string{"a", "b", "c"}[:r.Range(0, 3)] {
+	valueCols := []string{"a", "b", "c"}[:r.Range(0, 3)]
+	if r.Intn(40) == 0 {
+		valueCols = []string{"a", "b", "c", "d", "e", "f", "g", "h", "i", "j", "k", "l", "m"}[:Pick(r, []int{9, 10, 11, 13})] // a wide frame
+	}
+	for _, name := range valueCols {
 		df.Columns[name] = &dataframe.Column[any]{Name: name, Data: r.Column(n, Pick(r, []colKind{kInt, kStr, kBool, kMixed}))}
 	}
 	col := "t"
@@ -75,7 +85,7 @@ func genRsm(r *Rng, tier string) *Enc {
 	}
 	freq := Pick(r, []string{"Y", "M", "D", "H", "T", "S"})
 	if r.Chance(6) {
-		freq = Pick(r, []string{"Q", "", "W", "d"})
+		freq = Pick(r, []string{"Q", "", "W", "d", "0T", "0D", "00H", "15T", "1D", "-1T", "2", "0"})
 	}
 	agg := r.Intn(5)
 	if mixed && !r.Chance(6) {
